@@ -222,20 +222,32 @@ def AllFramed : List Req → List Obs → Prop
   | rq :: rqs, o :: os => ObsFramed rq.method o ∧ AllFramed rqs os
   | _, _ => False
 
-theorem C06_history (pg : Pages) (p : Plan) (hok : HandlerOk p) :
-    ∀ (rqs : List Req) (cache : Option Cache), CacheOk cache → AllFramed rqs (serveAll pg p rqs cache) := by
+/-- Histories: the handler may return a different value on every invocation (`Handler.later`), requests
+    carry a logical time and cache directives (max-age, no-cache, Pragma, no-store), so a stored copy can be
+    hit, ignored as too old, bypassed or replaced at any point; the cache content and the invocation
+    count are part of the induction. -/
+theorem C06_history (pg : Pages) (p : Plan) (hok : ∀ g, HandlerOk (planAt p g)) :
+    ∀ (rqs : List Req) (cache : Option Cache) (gen : Nat), CacheOk cache →
+      AllFramed rqs (serveAll pg p rqs cache gen) := by
   intro rqs
   induction rqs with
-  | nil => intro _ _; trivial
+  | nil => intro _ _ _; trivial
   | cons rq rest ih =>
-    intro cache hc
-    have h := serve_framed pg rq p cache hok hc
+    intro cache gen hc
+    have h := serve_framed pg rq (planAt p gen) cache (hok gen) hc
     simp only [serveAll]
-    exact ⟨h.1, ih _ h.2⟩
+    exact ⟨h.1, ih _ _ h.2⟩
 
-theorem C06_history_from_empty (pg : Pages) (p : Plan) (hok : HandlerOk p) (rqs : List Req) :
-    AllFramed rqs (serveAll pg p rqs none) :=
-  C06_history pg p hok rqs none CacheOk_none
+theorem C06_history_from_empty (pg : Pages) (p : Plan) (hok : ∀ g, HandlerOk (planAt p g)) (rqs : List Req) :
+    AllFramed rqs (serveAll pg p rqs none 0) :=
+  C06_history pg p hok rqs none 0 CacheOk_none
+
+/-- a handler that never sets its own Content-Length meets the hypothesis on every invocation -/
+theorem handlerOk_of_no_own_length (p : Plan) (h : p.h.setCL = none) : ∀ g, HandlerOk (planAt p g) := by
+  intro g n hn
+  cases g with
+  | zero => simp [planAt, h] at hn
+  | succ g => simp [planAt, h] at hn
 
 /-! ### HEAD -/
 
@@ -285,7 +297,9 @@ theorem beforeAndHandler_head (pg : Pages) (rq : Req) (p : Plan) (cache : Option
   have h1 : ¬ rq.method = .post := by rw [hm]; decide
   have h2 : ¬ (asGet rq).method = .post := by simp [asGet]
   have h3 : ∀ c : Cache, c.find rq = c.find (asGet rq) := fun _ => rfl
-  simp only [beforeAndHandler, h1, h2, if_false, handlerStage_head pg rq p, h3]
+  have h4 : ∀ ent, cacheDecision rq ent = cacheDecision (asGet rq) ent := fun _ => rfl
+  have h5 : (asGet rq).cc = rq.cc := rfl
+  simp only [beforeAndHandler, h1, h2, if_false, handlerStage_head pg rq p, h3, h4, h5]
 
 theorem recover_head (pg : Pages) (rq : Req) (fails cached : Bool) (hooks : List Step) (first : St × Option Exn)
     (hm : rq.method = .head) :
@@ -393,6 +407,17 @@ example : ¬ HandlerOk witnessPlan := by
   rcases h 2 rfl with ⟨h1, _⟩ | ⟨_, h2, _⟩
   · revert h1; decide
   · revert h2; decide
+
+/-- The stale / fresh header flow in `caching.get`: a stored copy that is too old for the request's
+    `max-age` is ignored *together with its headers* — the regenerated (longer) body goes out with its own
+    Content-Length, is stored with it, and a later HEAD hit reports that length. -/
+theorem stale_copy_ignored_with_its_headers :
+    let p : Plan := { h := { shape := .bytesV [1, 2, 3], later := [.bytesV [1, 2, 3, 4, 5]], ct := .octet },
+                      t := { caching := true } }
+    let obs := serveAll pg0 p [{ now := 0 }, { now := 20, cc := .maxAge 10 }, { now := 21, method := .head }] none 0
+    obs.map (fun o => (o.cached, o.cl, o.delivered.length)) =
+      [(false, some (.nat 3), 3), (false, some (.nat 5), 5), (true, some (.nat 5), 0)] := by
+  decide
 
 /-- The no-body rule is claimed for non-streamed responses only (as in the statement): `finalize`
     tests `stream` first, so a streamed 204 keeps the body its handler produced. -/
